@@ -68,6 +68,10 @@ type Revision struct {
 	Trailer       []syntax.Entry `json:"trailer,omitempty"`
 	XRefStreamNum uint32         `json:"xref_stream_num,omitempty"`
 	ObjStmNums    []uint32       `json:"objstm_nums,omitempty"`
+	// ObjStmCount, if positive, is the number of object streams over which
+	// the compressed objects of the revision are distributed (in equal
+	// shares, ascending numbers); 0 lets the Chooser decide (one or two).
+	ObjStmCount int `json:"objstm_count,omitempty"`
 	// Object0 says whether an update section (not the first revision, which
 	// always has it) contains an entry for object 0: 0 = the Chooser decides
 	// (only if the revision frees something), 1 = always, 2 = never, 3 =
@@ -157,6 +161,18 @@ type Result struct {
 	// without white space.
 	ObjStmTight    int
 	ObjStmAdjacent int
+	// ObjStms describes every object stream written.
+	ObjStms []ObjStmInfo
+}
+
+// ObjStmInfo describes one object stream.
+type ObjStmInfo struct {
+	Rev      int
+	Num      uint32
+	Members  int
+	First    int // /First: the length of the index including the white space after it
+	IndexLen int // the length of the index proper (up to its last digit)
+	DataLen  int // length of the decoded data
 }
 
 type xent struct {
@@ -351,7 +367,16 @@ func (w *fileWriter) revision(ri int, rev *Revision, size *uint32, prev int, las
 	}
 	if len(compressed) > 0 {
 		groups := [][]uint32{compressed}
-		if len(compressed) > 1 && c.Intn(3) == 2 {
+		if n := rev.ObjStmCount; n > 0 {
+			// exactly n containers (as far as there are members), equal shares
+			if n > len(compressed) {
+				n = len(compressed)
+			}
+			groups = nil
+			for gi := 0; gi < n; gi++ {
+				groups = append(groups, compressed[gi*len(compressed)/n:(gi+1)*len(compressed)/n])
+			}
+		} else if len(compressed) > 1 && c.Intn(3) == 2 {
 			k := 1 + c.Intn(len(compressed)-1)
 			groups = [][]uint32{compressed[:k], compressed[k:]}
 		}
@@ -765,6 +790,7 @@ func (w *fileWriter) objStm(ri int, rev *Revision, it *bodyItem, setEnt func(uin
 		w.res.ObjStmTight++
 	}
 	data := append(hd.buf, body...)
+	w.res.ObjStms = append(w.res.ObjStms, ObjStmInfo{Rev: ri, Num: it.num, Members: len(it.members), First: first, IndexLen: indexLen, DataLen: len(data)})
 	dict := syntax.D("Type", syntax.N("ObjStm"), "N", syntax.I(int64(len(it.members))), "First", syntax.I(int64(first)))
 	enc, extra := w.encodeStream(data, 1+c.Intn(4), true)
 	dict.Dict = append(dict.Dict, extra...)
